@@ -53,7 +53,7 @@ def run(tier: str) -> int:
     b = families.C01_BOUNDS[tier]
     return gc.run_model_check(
         C07(), specs(tier), tier, "exploration",
-        bounds=[{"top": [{"n": n, "modifiers": list(m), "trivia": list(t)} for n, m, t in b["top"]], "contexts": {"hole_size": b["ctx"][0], "trivia": list(b["ctx"][1])}, "max_inputs_per_rule": b["max_inputs"]}],
+        bounds=[{"top": [{"n": n, "modifiers": list(m), "trivia": list(t)} for n, m, t in b["top"]], "contexts": [{"hole_size": h, "trivia": list(t)} for h, t in b["ctx"]], "max_inputs_per_rule": b["max_inputs"]}],
         rule=families.c01_rule_text() + "; plus one recursive template p = { \"(\" ~ p ~ \")\" | \"a\" } with inputs up to length 5. Oracle: in each of the four modes the only outcomes are Pairs or PestParsingError "
              "(any other exception, or the 20 s watchdog, is a violation) and an immediately repeated call returns an equal observation (tree, or furthest_pos + expected/unexpected sets). "
              "The families are chosen because escaping exceptions live in uncommon paths: empty stack, zero iterations, input ending mid-construct. Non-trivial: the first mode returned at least one pair",
